@@ -238,7 +238,9 @@ func (s *srvRun) burst(pkts [][]byte, arp []arpResp, gapMs []int) []roundObs {
 		}
 	}
 	s.arp = map[uint32]arpResp{}
+	s.arpMu.Lock()
 	s.arpSeen = map[uint32]int{}
+	s.arpMu.Unlock()
 	for _, a := range arp {
 		s.arp[a.ip] = a
 	}
